@@ -1,8 +1,5 @@
-import PpciVerif.Proofs.RelaxObj
+import PpciVerif.Proofs.Relax
 import PpciVerif.Proofs.RelaxInsn
-import PpciVerif.Proofs.RelaxScan
-import PpciVerif.Proofs.RelaxRange
-import PpciVerif.Proofs.RelaxLink
 import PpciVerif.Model.RelaxLink
 import PpciVerif.Gen.RelaxTab
 /-!
